@@ -86,7 +86,11 @@ def replay(rec):
         # special sources a data-dependent branch may single out: zero net flux, identically zero
         qd = np.zeros((ny, nx))
         qd.flat[0], qd.flat[-1] = 1.0, -1.0  # net flux exactly zero
-        for qs in (q1 - q1.mean(), np.zeros((ny, nx)), qd):
+        # ... exactly uniform (a 'nothing to resolve' shortcut), a uniform field split in two halves
+        qu = np.full((ny, nx), 1.75)
+        qh = np.zeros((ny, nx))
+        qh[:, : max(1, nx // 2)] = 1.75
+        for qs in (q1 - q1.mean(), np.zeros((ny, nx)), qd, qu, qh, qu - qh):
             g, cz0, fz0 = kindl.real_solve(sc, qs, srf_bg_conc=0.0, **kw)
             g, cz1, fz1 = kindl.real_solve(sc, qs, srf_bg_conc=c1, **kw)
             worst = max(worst, float(np.abs((np.asarray(cz1) - np.asarray(cz0)) - c1).max()) / abs(c1), kindl.rel_err(fz1, fz0) if np.abs(fz0).max() > 0 else float(np.abs(fz1).max()))
